@@ -34,6 +34,8 @@ def run(ck):
     for h in range(ck.n(120, 3000)):
         N = rng.randint(2, 64)
         dt = rng.choice([0.25, 0.5, 1.0, 2.0, 0.125, 3.0])
+        if h % 7 == 3:
+            dt = -dt                      # a descending axis (the constructor accepts a negative step)
         start = dy(-50, 50, 4) if rng.random() < 0.7 else 0.0
         upper = rng.random() < 0.5
         fs = rng.choice([0.0, 0.0, 1.5, -0.75, 2.25])
@@ -58,13 +60,14 @@ def run(ck):
             continue
         ck.case(("axis", start, N, dt, upper, fs, ctx), nontrivial=(N % 2 == 1 or fs != 0.0 or start != 0.0), kind="axes",
                 atype=inp["atype"], parity="odd" if N % 2 else "even", units=str(ctx), sample=inp if h < 2 else None)
-        emit("tofreq %d %s %d %s %s" % (1 if upper else 0, frac(start), N, frac(dt), frac(fs / PI)),
+        if dt > 0:
+          emit("tofreq %d %s %d %s %s" % (1 if upper else 0, frac(start), N, frac(dt), frac(fs / PI)),
              "%s %d %s %d %s" % (frac(wf[0] / PI), wf[1], frac(wf[2] / PI), 1 if wf[3] == "upper-half" else 0, frac(wf[4])), "axis")
-        emit("totime %d %s %d %s %s" % (1 if wf[3] == "upper-half" else 0, frac(wf[0] / PI), wf[1], frac(wf[2] / PI), frac(wf[4])),
+          emit("totime %d %s %d %s %s" % (1 if wf[3] == "upper-half" else 0, frac(wf[0] / PI), wf[1], frac(wf[2] / PI), frac(wf[4])),
              "%s %d %s %d %s" % (frac(t2.start), t2.length, frac(t2.step), 1 if t2.atype == "upper-half" else 0, frac(t2.frequency_start / PI)), "axis")
         # oracle: round trips
-        sc = max(1.0, abs(start) + N * dt)
-        if (t2.length != N or t2.atype != t.atype or abs(t2.start - start) > 1e-9 * sc or abs(t2.step - dt) > 1e-12 * dt
+        sc = max(1.0, abs(start) + N * abs(dt))
+        if (t2.length != N or t2.atype != t.atype or abs(t2.start - start) > 1e-9 * sc or abs(t2.step - dt) > 1e-12 * abs(dt)
                 or numpy.abs(numpy.array(t2.data) - numpy.array(t.data)).max() > 1e-9 * sc or abs(t2.frequency_start - fs) > 1e-9 * max(1.0, abs(fs))):
             ck.fail("axis:time-freq-time", "time axis -> frequency axis -> time axis is not the identity", inp,
                     [t2.start, t2.length, t2.step, t2.atype, t2.frequency_start])
@@ -76,7 +79,7 @@ def run(ck):
         # origin, then asked again: the answer is that of a fresh axis with the present parameters, and it maps back to the present axis
         if h % 3 == 0:
             try:
-                th = TimeAxis(abs(start) + dt, N, dt, atype=t.atype, frequency_start=fs)
+                th = TimeAxis(abs(start) + abs(dt), N, dt, atype=t.atype, frequency_start=fs)
                 th.get_FrequencyAxis()
                 how = ("shift_to_zero", "frequency_start")[(h // 3) % 2]
                 if how == "shift_to_zero":
@@ -89,13 +92,13 @@ def run(ck):
                 with energy_units("int"):
                     a_ = (wh.start, wh.length, wh.step, wh.atype, wh.time_start)
                     b_ = (fresh.start, fresh.length, fresh.step, fresh.atype, fresh.time_start)
-                inph = dict(inp, start=abs(start) + dt, history="get_FrequencyAxis; %s; get_FrequencyAxis" % how)
+                inph = dict(inp, start=abs(start) + abs(dt), history="get_FrequencyAxis; %s; get_FrequencyAxis" % how)
                 ck.case(("axis-history", N, dt, upper, fs, how), nontrivial=True, kind="axes", atype=inp["atype"], parity="odd" if N % 2 else "even",
                         units="history")
                 if a_[1] != b_[1] or a_[3] != b_[3] or max(abs(a_[0] - b_[0]), abs(a_[2] - b_[2]), abs(a_[4] - b_[4])) > 1e-9 * sc:
                     ck.fail("axis:history:frequency-axis", "frequency axis of a time axis that was changed after an earlier request differs from "
                             "that of a fresh axis with the same parameters", inph, list(a_), list(b_))
-                if (tb.length != N or tb.atype != th.atype or abs(tb.start - th.start) > 1e-9 * sc or abs(tb.step - dt) > 1e-12 * dt
+                if (tb.length != N or tb.atype != th.atype or abs(tb.start - th.start) > 1e-9 * sc or abs(tb.step - dt) > 1e-12 * abs(dt)
                         or abs(tb.frequency_start - th.frequency_start) > 1e-9 * max(1.0, abs(th.frequency_start))):
                     ck.fail("axis:history:time-freq-time", "time axis -> frequency axis -> time axis is not the identity for an axis that was "
                             "changed after an earlier request", inph, [tb.start, tb.length, tb.step, tb.atype, tb.frequency_start],
@@ -120,9 +123,15 @@ def run(ck):
         # how the values got into the function: at construction, by assignment to .data of a function built real, or
         # by apply_to_data on a real function - the transform may only depend on axis and values
         how = rng.choice(["constructor", "constructor", "assigned", "applied"])
+        if h % 6 == 5:
+            # whole-number samples handed over as an integer array (real data; on a half axis they are Hermitian-extendable as they are)
+            y = numpy.array([rng.randint(-8, 8) for _ in range(N)], dtype=int)
+            yscale = 1.0
+            how = "integer array"
+            inp["y"] = [str(z) for z in y[:6]]; inp["scale"] = 1.0
         inp["values_set_by"] = how
         try:
-            if how == "constructor":
+            if how in ("constructor", "integer array"):
                 f = DFunction(t, y.copy())
             elif how == "assigned":
                 f = DFunction(t, numpy.real(y).copy())
